@@ -63,19 +63,19 @@ func ParseJSONB(data []byte) interface{} {
 }
 
 func parseJSONBObject(data []byte, entries []uint32, dataStart, count int) map[string]interface{} {
-	keys, vals := entries[:count], entries[count:]
-	keysLen := totalLen(keys)
-
+	// Keys and values share ONE JEntry array (count keys, then count values):
+	// lengths accumulate, and every 32nd entry of the whole array stores an end
+	// offset relative to the start of the data area. Value i is entry count+i.
 	result := make(map[string]interface{}, count)
 	for i := 0; i < count; i++ {
-		kOff, kLen := entryOffLen(keys, i, 0)
+		kOff, kLen := entryOffLen(entries, i, 0)
 		key := ""
 		if dataStart+kOff+kLen <= len(data) {
 			key = string(data[dataStart+kOff : dataStart+kOff+kLen])
 		}
 
-		vOff, vLen := entryOffLen(vals, i, keysLen)
-		result[key] = decodeJEntry(data, dataStart+vOff, vLen, vals[i])
+		vOff, vLen := entryOffLen(entries, count+i, 0)
+		result[key] = decodeJEntry(data, dataStart+vOff, vLen, entries[count+i])
 	}
 	return result
 }
